@@ -278,7 +278,7 @@ let show_sem_full s =
   "(" ^ show_nat s.Sem.s_trials ^ " " ^ show_list show_sem_factor_full s.Sem.s_factors ^ " "
   ^ show_list show_sem_crossing s.Sem.s_crossings ^ " " ^ show_list show_sem_constraint_full s.Sem.s_constraints ^ ")"
 let front_seq_of_sexp = list_of_sexp (list_of_sexp cellopt)
-let nest_guards so si = [NestSem.nestable_b so si; NestSem2.nestable_d_b so si; NestSem3.nestable_c_b so si; NestSem3.nestable_f_b so si]
+let nest_guards so si = [NestSem.nestable_b so si; NestSem2.nestable_d_b so si; NestSem3.nestable_c_b so si; NestSem3.nestable_f_b so si; NestSem4.nestable_s_b so si]
 let () =
   (* (nestsem2 OUTER_SEM INNER_SEM) -> (guards: nestable_b nestable_d_b ...)  (nest_sem2, in full) *)
   register "nestsem2" (function [o; i] ->
